@@ -2,6 +2,7 @@ import EpgVerif.Props.C14
 import EpgVerif.Props.C14Bound
 import EpgVerif.Props.C14Parseval
 import EpgVerif.Tie.ShiftSites
+import EpgVerif.Props.C14Tensor
 open EpgVerif.Props.C14
 #print axioms q_rotation
 #print axioms T_isometry
@@ -30,3 +31,7 @@ open EpgVerif.Props.C14
 #print axioms parseval_finset
 #print axioms norm_is_ensemble_rms
 #print axioms norm_is_bloch_ensemble_rms
+#print axioms attTensor_real
+#print axioms tensor_const_nonneg
+#print axioms tensor_ramp_nonneg
+#print axioms tensor_diffusion_is_bounded_step
